@@ -180,6 +180,8 @@ def h19_redis_bucket(S):
     read_after = S.int("read_after", 0, 12 * 366 * 86400 * SEC)
     S.assume(stored_after < ttl)                                       # it is still alive when stored
     which = S.pick("bucket_class", 2)
+    # the machine's UTC offset, in quarter hours: timestamps are local wall-clock readings, Redis counts unix seconds
+    zone = S.int("utc_offset_quarter_hours", -48, 56) * (900 * SEC)
     clock = PinnedClock(ts + stored_after)
     out = {}
 
@@ -194,7 +196,9 @@ def h19_redis_bucket(S):
         clock.set(ts + stored_after + read_after)
         out["got"] = await br.get_bucket("b1")
 
-    run_async(main, clock=clock)
+    from engine.vtime import local_zone
+    with local_zone(zone):
+        run_async(main, clock=clock)
     now = ts + stored_after + read_after
     if out["got"] is not None:
         S.cover("bucket-alive")
@@ -253,7 +257,7 @@ HARNESSES += [
             functions=["connections/rabbitmq/message_broker.py:RabbitMessageBroker.enqueue"], covers=["published-delayed"],
             stubs=["fake AMQP channel records the publish"]),
     Harness(name="H19e-redis-bucket-expiry", scenario=h19_redis_bucket, workers=4,
-            bounds={"timestamp": "any µs", "ttl": "[1 s, 10 y]", "stored": "any time while alive (up to a year after the timestamp)", "read": "up to 12 years later",
+            bounds={"timestamp": "any µs", "ttl": "[1 s, 10 y]", "utc offset of the machine": "-12:00 .. +14:00 in quarter hours", "stored": "any time while alive (up to a year after the timestamp)", "read": "up to 12 years later",
                     "tolerance": "one second (Redis expiry is in whole seconds)"},
             functions=["connections/redis/bucket_broker.py:RedisBucketBroker.store_bucket", "connections/redis/bucket_broker.py:RedisBucketBroker.get_bucket"],
             covers=["bucket-alive", "bucket-gone"], stubs=["fake Redis server: SET with EXAT / EX, expiry against the virtual clock"]),
